@@ -16,11 +16,12 @@ structure Life where
   invs : List (ReqId × InvRec)
   faults : List SendOut
   progs : List ReqId
+  ended : Bool
 deriving DecidableEq
 
 def Sess.life (s : Sess) : Life :=
   { mode := s.mode, transport := s.transport, sessionId := s.sessionId, goodbyeSent := s.goodbyeSent, invs := s.invs,
-    faults := s.faults, progs := s.progs }
+    faults := s.faults, progs := s.progs, ended := s.ended }
 
 /-- outputs of the lifecycle and of the callee side -/
 def lifeOut : SOut → Bool
